@@ -317,6 +317,13 @@ def point_list(draw, hi, max_n=5):
     if draw(st.integers(0, 3)) == 0:
         ks[-1] = 1000  # a point on the very end of the span (and, through k = 0, on its start) is legal in Praat
     vals = draw(st.lists(values(), min_size=n, max_size=n))
+    if n >= 2 and draw(st.integers(0, 2)) == 0:
+        # a tier opening with a value that many of the functions map onto itself (0 under every scaling and sign change,
+        # 5 / 1e-5 / 1e20 under the constants) followed by one they do change: "every value exactly once" includes
+        # the values behind an unchanged first one
+        vals[0] = draw(st.sampled_from([0.0, 0.0, 5.0, 1e-05, 1e20]))
+        if vals[1] == vals[0]:
+            vals[1] = vals[0] + 1.0 if vals[0] < 1e19 else 7.0
     out = [[0.0 if k == 0 else hi if k == 1000 else hi * k / 1000, v] for k, v in zip(ks, vals)]
     if draw(st.integers(0, 3)) == 0:
         # the same point twice (KlattGrid tiers keep their points ordered by time and then value, so nothing is claimed
